@@ -41,7 +41,16 @@ RULE = ("random histories (length 3..14 quick, ..40 thorough) over a pool of fin
         "None); element functions as lambda / def / bound method / callable / partial; exhaustive "
         "(call, count, constructor, mutation, following use) families; long runs (streams of 1000..9000 items with "
         "counts around powers of two and beyond 4096, histories of 300..2000 steps, peek/take/append loops of "
-        "60..2000 rounds).  A history is non-trivial when at least one step returned items; distinct = distinct JSON")
+        "60..2000 rounds).  Entry `calls`: the same histories with every operation written as the caller writes it "
+        "(count as int / bool / float / -0.0 / Fraction / None / omitted / a non-number / beyond sys.maxsize / beyond the "
+        "float range, positional or n=; every tie k + 0.5 for k = -3..6 as float and as Fraction through take / peek / skip / "
+        "limit; Stream(...) / append(...) with no, one, several arguments, iterables, scalars, both, an existing object among "
+        "them; sources built on itertools objects: chain, islice, finite repeat(v, k), count, endless repeat / cycle, the "
+        "lazy_itertools Streams, map, range, a Stream subclass, ControlStream; thub / tee with n = 0, 1, many, negative, bool, "
+        "float, omitted, on Streams, hubs, scalars) and refused / failing calls in the middle of the history, which then goes "
+        "on.  Entry `xhist`: histories over sources and element functions that raise at some items (5 maps, 3 predicates, 7 "
+        "elementwise attribute / call forms), read on after every exception, with and without copies / peek.  A history is "
+        "non-trivial when at least one step returned items; distinct = distinct JSON")
 TRUSTED = [
     "hand-written Lean model ALV/Model/C03.lean of lazy_stream.Stream/StreamTeeHub/thub and lazy_itertools.tee "
     "(modelled, not verified: itertools.tee/chain/cycle/repeat, map/filter builtins, list iterators, the generator "
@@ -52,6 +61,17 @@ TRUSTED = [
     "the same object with the same items afterwards (identity facts) is asserted by the harness on every step "
     "(alias / dirty / dirtyarg observations), not modelled; independence of a step from the calls on other "
     "objects holds in the list model by construction (specStep touches one pool entry)",
+    "the call layer (ALV/Model/C03Call.lean, elabCall) is a hand-written model of the argument handling of Stream.__init__, "
+    "take, skip, limit, append, thub, StreamTeeHub.__init__ and lazy_itertools.tee, including what CPython's isinf / round / "
+    "itertools.islice / itertools.tee accept (sys.maxsize = 2**63 - 1, float range 2**1024); a call that fails after "
+    "Stream(self) was built is identified with the failing limit of the history model (same exception, same lost use of a hub); "
+    "peek with a refused count is modelled as touching nothing (the real code has made a tee first: not observable)",
+    "raising elements (ALV/Model/C03X.lean): which iterator types go on after an exception (map, filter, chain, tee) and "
+    "which are finished by it (islice, generators), and that tee does not store an exception, are modelled from CPython's "
+    "behaviour, not verified; with copies the heap model alone is compared with the code (the event-list specification and "
+    "its theorems cover histories without copy / peek: raise_history_with_copies_PENDING)",
+    "StreamTeeHub.__del__ (MemoryLeakWarning with the number of unused copies) is an object-lifetime effect outside the "
+    "Lean model: checked behaviourally by extra_checks for n = 0..3 and every number of uses taken",
     "tagged items: harness/props/c03_flavours.py maps a model item (value, tag) to the Python object that stands "
     "for it and back (rep / unrep); the model only moves items around and applies the element functions to the value",
 ]
@@ -73,8 +93,14 @@ ASSUMPTIONS = [
     "stream is not fixed by the property — such histories are cut at the mutation (compare: _lent_cut), so an "
     "eager copy of the argument and a lazy read are both accepted.  What is fixed and checked: the streams never "
     "change the list, every call sees the whole list, containers handed out are the caller's to change",
-    "element functions are pure (a closure mutated after map/filter, a function that reads another stream, a source "
-    "that raises are outside the immutable list model)",
+    "element functions are deterministic (a closure mutated after map/filter, a function that reads another stream are "
+    "outside the list model); element functions and sources that raise are covered by the entry `xhist` on int items, "
+    "finite sources, Streams only (no StreamTeeHub)",
+    "calls with a refused count (Fraction / non-number / beyond sys.maxsize to take / peek) are generated on live plain "
+    "Streams only (on a StreamTeeHub `take` raises AttributeError whatever the argument); counts that are accepted and "
+    "astronomically large (take(sys.maxsize), skip(10**400)) are not generated: the executable list specification unrolls n "
+    "periods; skip with a count that int(round(.)) refuses raises lazily inside the generator and is not generated "
+    "(the model answers 'unsupported')",
     "a Stream subclass overriding __iter__ is covered as an argument (Stream(x), append(x), thub(x, n), tee(x, n), "
     "list(x), next(iter(x))); take / peek / copy / skip / ... called on such an instance read _data by design",
 ]
@@ -89,7 +115,13 @@ MANIFEST = {
             "(periodic_step_refines, periodic_take_refines, periodic_refines, periodic_refines_prefix, "
             "hist_refines_periodic; seq_eqv_sound), and on every history on which Python returns (SpecLive: no "
             "list()/take(inf) of an endless sequence, no filter rejecting a whole period) enough fuel exists "
-            "(periodic_total, periodic_take_total, hist_total)",
+            "(periodic_total, periodic_take_total, hist_total); histories of calls as the caller writes them — spellings of "
+            "counts, omitted arguments, argument lists, refused calls — refine the list model too (call_refines, "
+            "call_refines_periodic; call_defaults, count_bool, count_fraction, count_ties, stream_args, noniter_any_n), a call "
+            "or operation that raises leaves every Stream as it was (failed_call_no_trace, failed_op_no_trace, "
+            "refused_call_state); with element functions and sources that raise in the middle of a stream the model refines "
+            "an event-list model (raise_next, raise_take, raise_history without copies; raise_free_is_list_model; "
+            "raise_tee_once)",
     "note": "defect D1 (take/peek/limit/skip past the end raise RuntimeError under PEP 479) is recorded as known "
             "with four signatures; proposed_fixes/D1-take-past-end.diff repairs it (check then prints no finding)",
     "technique": "Lean 4 refinement proof (hub invariant buf ++ den parent = original, fuel-indexed next; caller "
